@@ -330,17 +330,19 @@ class Fn:
                     p.append(prev[p[-1]])
                 return False, p[::-1]
             for s in self.g.get(n, ()):
-                if s in seen or s in targets:
+                if s in seen or s in targets or (n, s) in removed_edges:
                     continue
                 if s not in prev:
                     prev[s] = n
                 st.append(s)
         return True, None
 
-    def must_pass_from(self, starts, targets):
+    def must_pass_from(self, starts, targets, removed_edges=()):
         """every path from any block in `starts` (inclusive) to a Return passes a block in
-        targets. Returns (ok, witness_path)."""
+        targets; edges in removed_edges are not followed (e.g. the success edges of a call when
+        the question is about its error paths). Returns (ok, witness_path)."""
         targets = set(targets)
+        removed_edges = set(removed_edges)
         rets = set(self.returns())
         prev = {}
         st = []
@@ -360,7 +362,7 @@ class Fn:
                     p.append(prev[p[-1]])
                 return False, p[::-1]
             for s in self.g.get(n, ()):
-                if s in seen or s in targets:
+                if s in seen or s in targets or (n, s) in removed_edges:
                     continue
                 if s not in prev:
                     prev[s] = n
